@@ -20,7 +20,7 @@ PROPS = {
     "C03": {
         "level": "exploration",
         "quick": [("A", 30000)],
-        "thorough": [("A", 1000000), ("D", 30000)],
+        "thorough": [("A", 1000000), ("D", 30000), ("E", 16)],
         "probes": ["early_drop_drain", "early_drop_extract", "early_drop_into_iter", "clone_from_same_buckets", "clone_from_diff_buckets", "clone_from_src_empty", "clone_from_dst_tombstones", "shrink", "shrink_to_singleton", "rehash_in_place"],
         "rule": "one evaluation = one simulated run ending in or containing removal, overwrite, clear, retain/extract_if, drain, into_iter/into_keys/into_values with sampled cut points, shrink, clone_from into an occupied target and drop; oracle: every element serial dropped exactly once or moved out once, every block returned once with its original layout, nothing live at the end; non-trivial/distinct as for C01",
     },
@@ -41,7 +41,7 @@ PROPS = {
     "C06": {
         "level": "exploration",
         "quick": [("A", 30000), ("B", 5000)],
-        "thorough": [("A", 900000), ("B", 100000), ("D", 20000)],
+        "thorough": [("A", 900000), ("B", 100000), ("D", 20000), ("E", 16)],
         "probes": ["reinsert_same_slot", "iter_hash_multi", "dup_elements", "zero_sized", "entry_at_full_load", "tombstone_created", "rehash_in_place", "tombstone_reused"],
         "rule": "one evaluation = one simulated run of HashTable operations (find, find_mut, find_entry, entry, insert_unique, OccupiedEntry::remove then VacantEntry::insert, iter_hash(_mut), retain, extract_if, drain, clear, reserve, shrink, get_many_mut, clone) with caller-supplied hashes drawn from the hash plans (collisions in position bits, tag bits, both; duplicates of identical ids; zero-sized elements) against a multiset model; non-trivial/distinct as for C01",
     },
@@ -62,14 +62,14 @@ PROPS = {
     "C09": {
         "level": "exploration",
         "quick": [("A", 30000), ("B", 5000)],
-        "thorough": [("A", 900000), ("B", 100000), ("D", 20000)],
+        "thorough": [("A", 900000), ("B", 100000), ("D", 20000), ("E", 16)],
         "probes": ["iter_clone_mid", "iter_fold_switch", "iter_default", "iter_after_exhaustion", "small_table", "one_group_table", "multi_group_table", "tombstone_created"],
         "rule": "one evaluation = one simulated run in which, in every reached state, iter/iter_mut/keys/values/values_mut/into_iter/into_keys/into_values/drain are driven by a plan (a x next, optional clone, then next/fold/for_each/count/last/nth, then calls after exhaustion) with size_hint/len checked at every step; non-trivial/distinct as for C01",
     },
     "C10": {
         "level": "exploration",
         "quick": [("A", 30000)],
-        "thorough": [("A", 1000000), ("D", 20000), ("B", 100000)],
+        "thorough": [("A", 1000000), ("D", 20000), ("B", 100000), ("E", 16)],
         "probes": ["early_drop_drain", "early_drop_extract", "tombstone_created", "multi_group_table", "small_table"],
         "rule": "one evaluation = one simulated run with retain / extract_if predicates answering true on an arbitrary PRNG-drawn subset (and mutating values), extract_if and drain dropped after k steps for sampled k; oracle: predicate called exactly once per element, kept/yielded sets exact, unvisited elements stay, drain leaves an empty usable collection holding the same block; non-trivial/distinct as for C01",
     },
@@ -90,14 +90,14 @@ PROPS = {
     "C13": {
         "level": "exploration",
         "quick": [("A", 1500), ("B", 200)],
-        "thorough": [("A", 18000), ("B", 2000)],
+        "thorough": [("A", 9000), ("B", 1000)],
         "probes": ["rehash_in_place", "tombstone_created", "tombstone_reused", "churn_long", "lookup_absent_saturated"],
         "rule": "one evaluation = one long churn history (2 000-100 000 operations) of insert/remove/lookup with live size <= n (n in 1..200), removal order random/FIFO/LIFO/middle, no explicit reservation, under Seq / clustered / all-colliding / mixed plans; oracle at every step: allocation_size() <= 8 x allocation of a fresh with_capacity(peak live size), invariant I4, per-operation callback cap and CPU watchdog (termination); non-trivial/distinct as for C01",
     },
     "C14": {
         "level": "exploration",
         "quick": [("A", 30000)],
-        "thorough": [("A", 1000000), ("B", 100000)],
+        "thorough": [("A", 1000000), ("B", 100000), ("E", 16)],
         "probes": ["entry_at_full_load", "entry_on_singleton", "entry_tombstone_saturated", "vacant_dropped", "rehash_in_place"],
         "rule": "one evaluation = one simulated run in which method chains of length <= 3 on entry, entry_ref, raw_entry_mut (from_key, from_key_hashed_nocheck, from_hash), raw_entry and rustc_entry are applied to present and absent keys in states steered to capacity()==len(), tombstone saturation and the unallocated singleton; the observation log of each chain must equal that of the same chain on the model; non-trivial/distinct as for C01",
     },
